@@ -593,7 +593,11 @@ func (in *instrumenter) rewriteFile(p *pkgInfo, f *ast.File, name string, write 
 					if id.Name == "weak" && (x.Sel.Name == "Make" || x.Sel.Name == "Pointer") || id.Name == "unique" && x.Sel.Name == "Make" {
 						in.res.Seams["gc_lifetime"]++
 					}
-					if isPkgIdent(id, runtimeName) && (x.Sel.Name == "GOMAXPROCS" || x.Sel.Name == "NumCPU") {
+					if isPkgIdent(id, runtimeName) && x.Sel.Name == "Gosched" {
+						add(off(x.Pos()), int(x.End()-x.Pos()), rt+".Gosched")
+						in.res.Seams["gosched"]++
+						usesRuntime = true
+					} else if isPkgIdent(id, runtimeName) && (x.Sel.Name == "GOMAXPROCS" || x.Sel.Name == "NumCPU") {
 						add(off(x.Pos()), int(x.End()-x.Pos()), rt+"."+x.Sel.Name)
 						in.res.Seams["nproc"]++
 						usesRuntime = true
